@@ -139,6 +139,11 @@ func Float64NaN(t *rapid.T, label string, sig bool) float64 {
 
 // BigFloatValue draws a *big.Float: mostly float64-representable, sometimes wider precision.
 func BigFloatValue(t *rapid.T, label string, allowWide bool) *big.Float {
+	return BigFloatValueMax(t, label, allowWide, 200)
+}
+
+// BigFloatValueMax is BigFloatValue with an explicit ceiling for the precision of the wide values.
+func BigFloatValueMax(t *rapid.T, label string, allowWide bool, maxPrec int) *big.Float {
 	switch rapid.IntRange(0, 5).Draw(t, label+".class") {
 	case 0:
 		f := new(big.Float)
@@ -154,6 +159,23 @@ func BigFloatValue(t *rapid.T, label string, allowWide bool) *big.Float {
 	default:
 		if !allowWide {
 			return new(big.Float).SetFloat64(Float64NonNaN(t, label+".f"))
+		}
+		if rapid.Bool().Draw(t, label+".quotient") {
+			// a quotient uses every mantissa bit of any precision (also beyond what the default
+			// MaxFloatCoefficientDigitCount of 100 digits = 334 bits can carry)
+			precs := []int{54, 64, 67, 68, 113, 128, 200}
+			if maxPrec > 200 {
+				precs = append(precs, 256, 333, 334, 335, 336, 400, 440, 448, 449, 512, 1200)
+			}
+			prec := uint(rapid.SampledFrom(precs).Draw(t, label+".qprec"))
+			num := int64(rapid.IntRange(1, 1000).Draw(t, label+".num"))
+			den := int64(rapid.SampledFrom([]int{3, 7, 10, 11, 1000003}).Draw(t, label+".den"))
+			f := new(big.Float).SetPrec(prec).Quo(new(big.Float).SetPrec(prec).SetInt64(num), new(big.Float).SetPrec(prec).SetInt64(den))
+			f.SetMantExp(f, rapid.IntRange(-300, 300).Draw(t, label+".qexp"))
+			if rapid.Bool().Draw(t, label+".qneg") {
+				f.Neg(f)
+			}
+			return f
 		}
 		prec := uint(rapid.IntRange(54, 200).Draw(t, label+".wprec"))
 		mant := BigIntMagnitude(t, label+".mant")
